@@ -149,8 +149,20 @@ void cmb_priorityqueue_recording_start(struct cmb_priorityqueue *pqp)
     cmb_assert_release(pqp != NULL);
     cmb_assert_release(((struct cmi_resourcebase *)pqp)->cookie == CMI_INITIALIZED);
 
+    /*
+     * Resuming after a pause? The pause itself is not part of the history:
+     * the sample that closed the previous recording gets no duration.
+     */
+    struct cmb_timeseries *ts = &(pqp->history);
+    const bool resuming = !pqp->is_recording && (cmb_timeseries_count(ts) > 0u);
+
     pqp->is_recording = true;
     record_sample(pqp);
+
+    const uint64_t n = cmb_timeseries_count(ts);
+    if (resuming && (n >= 2u)) {
+        ts->wa[n - 2u] = 0.0;
+    }
 }
 
 void cmb_priorityqueue_recording_stop(struct cmb_priorityqueue *pqp)
